@@ -25,6 +25,7 @@ def make_copy(m):
     d = tempfile.mkdtemp(prefix="mut-", dir="/tmp")
     shutil.copytree(os.path.join(REPO, "pdpy11"), os.path.join(d, "pdpy11"),
                     ignore=shutil.ignore_patterns("__pycache__"))
+    os.symlink(os.path.join(REPO, "tests"), os.path.join(d, "tests"))   # practice corpus and resources, read-only use
     if "patch" in m:
         subprocess.run(["git", "init", "-q", d], check=True)
         r = subprocess.run(["git", "-C", d, "apply", "--unsafe-paths", os.path.join(HERE, m["patch"])])
